@@ -7,6 +7,7 @@ import (
 
 	sdk "github.com/cosmos/cosmos-sdk/types"
 
+	rkeeper "github.com/jackalLabs/canine-chain/v4/x/rns/keeper"
 	rtypes "github.com/jackalLabs/canine-chain/v4/x/rns/types"
 
 	"vh/chain"
@@ -133,6 +134,17 @@ func (f *rnsFam) Apply(st M) M {
 	case "register":
 		l, tld := nameInfo(n)
 		ev["len"], ev["tld"] = l, tld
+		// the chain's own yearly price for this name (exported tariff function): an input of the property
+		yp := int64(-1)
+		func() {
+			defer func() { recover() }()
+			if i := strings.LastIndex(n, "."); i > 0 {
+				if c, err := rkeeper.GetCostOfName(n[:i], tld); err == nil {
+					yp = c
+				}
+			}
+		}()
+		ev["yp"] = yp
 		msg = &rtypes.MsgRegisterName{Creator: who.S(), Name: f.spell(n), Years: geti(st, "y"), Data: gets(st, "data"), SetPrimary: getb(st, "prim")}
 	case "list":
 		msg = &rtypes.MsgList{Creator: who.S(), Name: f.spell(n), Price: coinOf(getm(st, "p"))}
